@@ -539,6 +539,13 @@ func globalFuncs(g *ssa.Global) []*ssa.Function {
 						f, _ := v.Fn.(*ssa.Function)
 						changed = add(dst, f) || changed
 					default:
+						switch rv := root(val).(type) {
+						case *ssa.Function:
+							changed = add(dst, rv) || changed // converted to a named function type / boxed into an interface
+						case *ssa.MakeClosure:
+							f, _ := rv.Fn.(*ssa.Function)
+							changed = add(dst, f) || changed
+						}
 						for f := range contents[root(val)] {
 							changed = add(dst, f) || changed
 						}
